@@ -119,6 +119,11 @@ class ResidualFSQ(Module):
 
     def get_codes_from_indices(self, indices):
 
+        # forward returns indices as 'b q ...' when channel first
+
+        if self.is_channel_first:
+            indices = rearrange(indices, 'b q ... -> b ... q')
+
         batch, quantize_dim = indices.shape[0], indices.shape[-1]
 
         # may also receive indices in the shape of 'b h w q' (accept_image_fmap)
